@@ -17,10 +17,16 @@ class Run:
 
 
 def run_many(texts, variant="plain", timeout=120, tags=None, env_extra=None):
-    x = exe(variant)
+    # "memcheck" = the plain build run under valgrind memcheck (uninitialised reads, which the red-zone tools cannot see)
+    if variant == "memcheck":
+        x = exe("plain")
+        cmd = ["valgrind", "-q", "--error-exitcode=95", "--leak-check=no", "--num-callers=24", x]
+    else:
+        x = exe(variant)
+        cmd = [x]
 
     def one(i):
-        rc, out, err, dt = fw.run_proc([x], timeout, env_extra=env_extra, stdin_data=texts[i].encode())
+        rc, out, err, dt = fw.run_proc(cmd, timeout, env_extra=env_extra, stdin_data=texts[i].encode())
         r = Run()
         r.text, r.rc, r.trace, r.err, r.dt, r.variant = texts[i], rc, out, err, dt, variant
         r.tag = tags[i] if tags else i
